@@ -88,6 +88,7 @@ var keyModel = porcupine.Model{
 
 type linProgram struct {
 	Keys int
+	Reps int     // every goroutine runs its list this many times (each call is recorded)
 	Pre  []lin   // executed by the main goroutine before the start (part of the history)
 	G    [][]lin // one list per goroutine
 }
@@ -104,11 +105,11 @@ func (p linProgram) render() map[string]any {
 		pre[i] = o.String()
 	}
 
-	return map[string]any{"keys": p.Keys, "before_start": pre, "goroutines": gs}
+	return map[string]any{"keys": p.Keys, "before_start": pre, "repetitions": p.Reps, "goroutines": gs}
 }
 
 func drawLinProgram(t *rapid.T, ops []string) linProgram {
-	p := linProgram{Keys: rapid.IntRange(1, 3).Draw(t, "keys")}
+	p := linProgram{Keys: rapid.IntRange(1, 3).Draw(t, "keys"), Reps: rapid.IntRange(1, 30).Draw(t, "repetitions")}
 	val := uint32(0)
 	draw := func() lin {
 		val++
@@ -121,7 +122,7 @@ func drawLinProgram(t *rapid.T, ops []string) linProgram {
 	goroutines := rapid.IntRange(2, 4).Draw(t, "goroutines")
 	for g := 0; g < goroutines; g++ {
 		var list []lin
-		for i, n := 0, rapid.IntRange(2, 12).Draw(t, "ops"); i < n; i++ {
+		for i, n := 0, rapid.IntRange(2, 10).Draw(t, "ops"); i < n; i++ {
 			list = append(list, draw())
 		}
 		p.G = append(p.G, list)
@@ -183,8 +184,10 @@ func runLin(p linProgram, finalOp string, exec func(lin) lout) (history []porcup
 	bodies := make([]func(), len(p.G))
 	for g := range p.G {
 		bodies[g] = func() {
-			for _, in := range p.G[g] {
-				record(g, in, &per[g])
+			for rep := 0; rep < p.Reps; rep++ {
+				for _, in := range p.G[g] {
+					record(g, in, &per[g])
+				}
 			}
 		}
 	}
@@ -267,14 +270,14 @@ func checkLinearizable(t *testing.T, check string, ops []string, mapFlavour bool
 
 func TestSetLinearizable(t *testing.T) {
 	checkLinearizable(t, checkLinSet, []string{"Add", "Add", "Delete", "Delete", "Has"}, false,
-		"rapid draws programs of 2-4 goroutines x 2-12 operations Add/Delete/Has on 1-3 elements of one ds.Set (plus 0-3 operations before the start and a final Has per element by the main goroutine); "+
+		"rapid draws programs of 2-4 goroutines x 2-10 operations x 1-30 repetitions Add/Delete/Has on 1-3 elements of one ds.Set (plus 0-3 operations before the start and a final Has per element by the main goroutine); "+
 			"every call is stamped with a logical clock before and after; the history is judged by porcupine with a per-element presence-bit model; the interleaving is the scheduler's; distinct by program; "+
 			"non-trivial = two operations of different goroutines on one element, at least one a writer, overlapped in time")
 }
 
 func TestOrderedMapLinearizable(t *testing.T) {
 	checkLinearizable(t, checkLinOMap, []string{"Set", "Set", "Get", "Has", "Delete", "Delete"}, true,
-		"rapid draws programs of 2-4 goroutines x 2-12 operations Set(unique value)/Get/Has/Delete on 1-3 keys of one OrderedMap (plus operations before the start and a final Get per key by the main goroutine); "+
+		"rapid draws programs of 2-4 goroutines x 2-10 operations x 1-30 repetitions Set(unique value)/Get/Has/Delete on 1-3 keys of one OrderedMap (plus operations before the start and a final Get per key by the main goroutine); "+
 			"history stamped with a logical clock and judged by porcupine with a per-key register model (Set reports the previous value); the interleaving is the scheduler's; distinct by program; "+
 			"non-trivial = two operations of different goroutines on one key, at least one a writer, overlapped in time")
 }
